@@ -177,12 +177,18 @@ theorem assemble_quiet (n tl start pos : Nat) (es : List Perf) :
   induction n generalizing pos with
   | zero => simp
   | succ n ih =>
-    simp only [List.replicate_succ, List.cons_append, assemble, Nat.add_zero]
+    simp only [List.replicate_succ, List.cons_append, assemble, Nat.add_zero, Nat.lt_irrefl, decide_false,
+      Bool.and_false, Bool.false_eq_true, if_false, gt_iff_lt]
     rw [ih]; congr 1; omega
 
-theorem assemble_text (m tl start pos : Nat) (es : List Perf) :
+/-- A text event that continues text counted without a gap (`pos = start + tl` before the `m - 1`
+quiet bytes of the character): both bookkeeping variants agree. -/
+theorem assemble_text (m tl start pos : Nat) (es : List Perf) (hm : 0 < m) (hpos : pos + 1 = start + tl + m) :
     assemble tl start pos ((⟨none, m⟩ : Perf) :: es) = assemble (tl + m) start (pos + 1) es := by
-  simp [assemble]
+  simp only [assemble]
+  split
+  · congr 1; omega
+  · rfl
 
 theorem assemble_elem (k : Kind) (tl start pos : Nat) (es : List Perf) :
     assemble tl start pos ((⟨some k, 0⟩ : Perf) :: es) =
@@ -219,7 +225,10 @@ theorem assemble_tokens (ts : List Tok) : ∀ (p : Parser) (tl start : Nat), Gro
     (∀ t ∈ ts, t.WF) →
     assemble tl start (start + tl) (events p (tokBytes ts)) = tokElements tl start ts := by
   induction ts with
-  | nil => intro p tl start _ _; simp [tokBytes, events, assemble, tokElements]
+  | nil =>
+    intro p tl start _ _
+    simp only [tokBytes, events, assemble, tokElements]
+    split <;> simp
   | cons t ts ih =>
     intro p tl start hp hwf
     have ht := hwf t (by simp)
@@ -229,7 +238,8 @@ theorem assemble_tokens (ts : List Tok) : ∀ (p : Parser) (tl start : Nat), Gro
       obtain ⟨ev, hg⟩ := events_char p hp c ht.1 ht.2
       have hpos := isChar_length_pos ht.1
       simp only [tokBytes, Tok.bytes, events_append, ev, List.append_assoc, assemble_quiet,
-        List.singleton_append, assemble_text, tokElements]
+        List.singleton_append, tokElements]
+      rw [assemble_text _ _ _ _ _ hpos (by omega)]
       have e : start + tl + (c.length - 1) + 1 = start + (tl + c.length) := by omega
       rw [e]
       exact ih _ _ _ hg hts
